@@ -181,7 +181,11 @@ func (c *Ctx) Finish() int {
 	sort.Strings(c.order)
 	unknown := 0
 	knownHit := 0
-	_ = os.MkdirAll(filepath.Join(VerifDir, "violations"), 0o755)
+	violDir := filepath.Join(VerifDir, "violations")
+	if os.Getenv("VERIF_NO_EVIDENCE") != "" {
+		violDir = filepath.Join(VerifDir, "build", "mut-violations")
+	}
+	_ = os.MkdirAll(violDir, 0o755)
 	var vlist []map[string]any
 	for _, sig := range c.order {
 		v := c.viol[sig]
@@ -192,7 +196,7 @@ func (c *Ctx) Finish() int {
 			}
 		}
 		h := sha1.Sum([]byte(sig))
-		path := filepath.Join(VerifDir, "violations", c.ID+"-"+hex.EncodeToString(h[:5])+".json")
+		path := filepath.Join(violDir, c.ID+"-"+hex.EncodeToString(h[:5])+".json")
 		b, _ := json.MarshalIndent(v, "", " ")
 		_ = os.WriteFile(path, b, 0o644)
 		if isKnown {
@@ -227,9 +231,13 @@ func (c *Ctx) Finish() int {
 		"wall_s":     float64(int(time.Since(c.start).Seconds()*100)) / 100,
 		"violations": unknown,
 	}
-	_ = os.MkdirAll(filepath.Join(VerifDir, "evidence"), 0o755)
+	evDir := filepath.Join(VerifDir, "evidence")
+	if os.Getenv("VERIF_NO_EVIDENCE") != "" {
+		evDir = filepath.Join(VerifDir, "build", "mut-evidence") // mutant self-tests never touch the real evidence
+	}
+	_ = os.MkdirAll(evDir, 0o755)
 	b, _ := json.MarshalIndent(evd, "", " ")
-	if err := os.WriteFile(filepath.Join(VerifDir, "evidence", c.ID+".json"), b, 0o644); err != nil {
+	if err := os.WriteFile(filepath.Join(evDir, c.ID+".json"), b, 0o644); err != nil {
 		fmt.Fprintf(os.Stderr, "cannot write evidence: %v\n", err)
 		return 3
 	}
